@@ -38,7 +38,11 @@ def render_body(body, ind, uid):
         elif k == "l":
             uid[0] += 1
             v = "i%d" % uid[0]
-            L.append(ind + "for (int %s = 0; %s < %d; %s++) {\n" % (v, v, s[1], v) + "".join(ind + "    println(%d);\n" % t for t in s[2]) + ind + "}\n")
+            prints = "".join(ind + "    println(%d);\n" % t for t in s[2])
+            if uid[0] % 3 == 1:
+                # rendering only: every iteration ends through `continue` (same prints, same iteration boundaries)
+                prints += ind + "    if (%s >= 0) {\n" % v + ind + "        continue;\n" + ind + "    }\n" + ind + "    println(-999);\n"
+            L.append(ind + "for (int %s = 0; %s < %d; %s++) {\n" % (v, v, s[1], v) + prints + ind + "}\n")
         elif k == "s":
             L.append(ind + "Future<int> s%d = f%d();\n" % (s[2], s[1]))
         elif k == "a":
